@@ -762,6 +762,27 @@ def somewhere_defined(e):
     return str(s.check()) != 'unsat'
 
 
+def same_value(e1, e2):
+    """True when z3 proves the two expressions equal wherever both are defined, or -- when it cannot decide -- when they agree
+    numerically at three generic points (used only to classify a known finding, never for a verdict)."""
+    st, _ = compare(e1, e2, [])
+    if st == 'equal':
+        return True
+    if st == 'differ':
+        return False
+    ok = 0
+    for pt in ({'x': 0.37, 'a': 1.3, 'b': 2.1}, {'x': 1.9, 'a': 0.6, 'b': 1.1}, {'x': -0.8, 'a': 2.2, 'b': 3.0}):
+        try:
+            u, v = feval(e1, pt), feval(e2, pt)
+        except Exception:
+            continue
+        if u == u and v == v:
+            if abs(u - v) > 1e-9 * max(1.0, abs(u)):
+                return False
+            ok += 1
+    return ok > 0
+
+
 def idem_shape(ne, ne2):
     """Classifies a non-idempotent pair: 'fraction-times-sum' when the first normal form keeps a sum as an atom multiplied
     by a constant fraction (c * (s + t)) and the second round only distributes the constant over it."""
@@ -833,7 +854,12 @@ def run_exprs(u, out):
             try:
                 ne2 = call_with_budget(poly.normalize, 20.0, ne, conds)
                 if ne2 != ne:
+                    try:
+                        ne3 = call_with_budget(poly.normalize, 20.0, ne2, conds)
+                    except (NonTermination, Exception):
+                        ne3 = None
                     out['cex'].append(dict(rec, kind='normalize-not-idempotent', what='idem', sig='idem|%s' % e, shape=idem_shape(ne, ne2),
+                                           second_round_is_fixpoint=(ne3 == ne2), same_value=same_value(ne, ne2),
                                            detail='normalize(%s) = %s, but normalising that again gives %s' % (e, ne, ne2)))
             except (NonTermination, Exception):
                 pass
